@@ -25,14 +25,18 @@ using namespace OpenMEEG;
 
 static std::string casedir(ll id) { return "c" + std::to_string(id); }
 
-// ints: 1 id has_cond old_ordering | floats: probe coordinates (x y z)*
+// ints: 1 id has_cond old_ordering [preload] | floats: probe coordinates (x y z)*
 static FWire c11_load(Reader& r, FReader& fr) {
     ll id = r.z(); bool has_cond = r.z()!=0; bool old = r.z()!=0;
+    const bool preload = !r.done() && r.z()!=0;   // the object has already loaded the same description once
     std::vector<Vect3> probes;
     while (!fr.done()) { double x=fr.x(), y=fr.x(), z=fr.x(); probes.push_back(Vect3(x,y,z)); }
     const std::string d = casedir(id);
     FWire out;
     Geometry geo;
+    if (preload) {
+        try { if (has_cond) geo.load(d+"/model.geom", d+"/model.cond", old); else geo.load(d+"/model.geom", old); } catch (...) { }
+    }
     try {
         if (has_cond) geo.load(d+"/model.geom", d+"/model.cond", old);
         else          geo.load(d+"/model.geom", old);
